@@ -1237,6 +1237,10 @@ func (s *Server) processPuback(cl *Client, pk packets.Packet) error {
 
 // processPubrec processes a Pubrec packet, denoting receipt of a QOS 2 packet sent from the server.
 func (s *Server) processPubrec(cl *Client, pk packets.Packet) error {
+	if pk.PacketID == 0 {
+		return packets.ErrProtocolViolationNoPacketID // [MQTT-2.2.1-3]
+	}
+
 	if _, ok := cl.State.Inflight.Get(pk.PacketID); !ok { // [MQTT-4.3.3-7] [MQTT-4.3.3-13]
 		return cl.WritePacket(s.buildAck(pk.PacketID, packets.Pubrel, 1, pk.Properties, packets.ErrPacketIdentifierNotFound))
 	}
@@ -1257,6 +1261,10 @@ func (s *Server) processPubrec(cl *Client, pk packets.Packet) error {
 
 // processPubrel processes a Pubrel packet, denoting completion of a QOS 2 packet sent from the client.
 func (s *Server) processPubrel(cl *Client, pk packets.Packet) error {
+	if pk.PacketID == 0 {
+		return packets.ErrProtocolViolationNoPacketID // [MQTT-2.2.1-3]
+	}
+
 	if _, ok := cl.State.Inflight.Get(pk.PacketID); !ok { // [MQTT-4.3.3-7] [MQTT-4.3.3-13]
 		return cl.WritePacket(s.buildAck(pk.PacketID, packets.Pubcomp, 0, pk.Properties, packets.ErrPacketIdentifierNotFound))
 	}
